@@ -229,6 +229,8 @@ struct Run<'a> {
     /// when it was last changed (teardown clauses allow either value for one timeout's length afterwards)
     timeout_prev: u64,
     timeout_changed_at: u64,
+    /// source addresses of uplinks a reload removed (their sockets must be gone one pass later)
+    removed_sockets: Vec<std::net::SocketAddr>,
     /// receivers of frozen subscribers (kept so the channels stay open and full)
     frozen: Vec<tokio::sync::mpsc::Receiver<String>>,
     /// the mirrored world driven in lock-step (conformance runs only)
@@ -467,6 +469,15 @@ impl<'a> Run<'a> {
         }
         // ---- the statistics of the pass after the one that applied a reload show the new link set
         if let Some((accepted, want_set, before)) = self.reload_to_verify.take() {
+            // "together with their I/O handle": the removed uplink's socket is closed, so its address can be bound
+            for a in std::mem::take(&mut self.removed_sockets) {
+                if let Err(e) = std::net::UdpSocket::bind(a) {
+                    return Err(Fail::new(
+                        "real:reload-removed-uplink-keeps-its-socket",
+                        format!("uplink {a} was removed by the reload, but one pass later its UDP socket is still open (binding the address fails: {e})"),
+                    ));
+                }
+            }
             let mut a = listed.clone();
             a.sort_unstable();
             if a != want_set {
@@ -521,7 +532,9 @@ impl<'a> Run<'a> {
                 } else if !now_present && self.links[l].present {
                     self.links[l].present = false;
                     self.links[l].src_port = None;
-                    self.rig.link_src.remove(&l);
+                    if let Some(a) = self.rig.link_src.remove(&l) {
+                        self.removed_sockets.push(a);
+                    }
                     membership_changed[l] = true;
                 }
             }
@@ -1098,6 +1111,7 @@ fn run_path_once(m: &LoopModel, path: &[usize]) -> RunResult {
             relay_tag: 0,
             passes: 0,
             cov: Cov::default(),
+            removed_sockets: Vec::new(),
             timeout: m.timeout,
             timeout_prev: m.timeout,
             timeout_changed_at: 0,
@@ -1134,6 +1148,8 @@ fn run_path_once(m: &LoopModel, path: &[usize]) -> RunResult {
 }
 
 pub enum RealPlan {
+    /// exactly these paths
+    Explicit { name: String, paths: Vec<Vec<usize>> },
     Full { depth: usize },
     Dev { k: usize, depth: usize, default: usize },
 }
@@ -1141,6 +1157,7 @@ pub enum RealPlan {
 impl RealPlan {
     pub fn describe(&self) -> String {
         match self {
+            RealPlan::Explicit { name, paths } => format!("{name}({})", paths.len()),
             RealPlan::Full { depth } => format!("full({depth})"),
             RealPlan::Dev { k, depth, .. } => format!("dev({k},{depth})"),
         }
@@ -1149,6 +1166,7 @@ impl RealPlan {
     pub fn paths(&self, n_events: usize) -> Vec<Vec<usize>> {
         let mut out = Vec::new();
         match self {
+            RealPlan::Explicit { paths, .. } => return paths.clone(),
             RealPlan::Full { depth } => {
                 let mut cur = vec![0usize; *depth];
                 loop {
@@ -1324,7 +1342,7 @@ pub fn keys_of(prop: &str) -> &'static [&'static str] {
             "real:rejoin-not-clean",
         ],
         "C09" => &["real:receiver-datagram-not-relayed", "real:client-received-unexpected-datagram"],
-        "C14" => &["real:keepalive"],
+        "C14" => &["real:keepalive", "real:housekeeping-pass-stalled"],
         "C19" => &["real:reload", "real:refused-reload", "real:datagram-from-unknown-source"],
         "C20" => &["real:housekeeping-pass-stalled"],
         _ => &[],
@@ -1357,7 +1375,31 @@ pub fn plans_of(prop: &str, quick: bool) -> Vec<(LoopModel, RealPlan)> {
             }
         }
         "C19" => {
-            v.push((LoopModel::new(2, 5000, false, 4), RealPlan::Full { depth: if quick { 3 } else { 4 } }));
+            // one or two reloads (the second straight after the first, or one second later), then three seconds
+            {
+                let m = LoopModel::new(2, 5000, false, 4);
+                let reloads: Vec<usize> = (0..m.events.len()).filter(|e| matches!(m.events[*e], Ev::Reload(_))).collect();
+                let sec = m.index_of(Ev::SecIdle);
+                let mut paths = Vec::new();
+                for a in &reloads {
+                    paths.push(vec![*a, sec, sec, sec]);
+                    for b in &reloads {
+                        paths.push(vec![*a, *b, sec, sec, sec]);
+                        paths.push(vec![*a, sec, *b, sec, sec, sec]);
+                    }
+                }
+                if !quick {
+                    for a in &reloads {
+                        for b in &reloads {
+                            for c in &reloads {
+                                paths.push(vec![*a, *b, *c, sec, sec, sec]);
+                            }
+                        }
+                    }
+                }
+                v.push((m, RealPlan::Explicit { name: "reload-pairs".into(), paths }));
+            }
+            v.push((LoopModel::new(2, 5000, false, 4), RealPlan::Full { depth: if quick { 2 } else { 4 } }));
             v.push((LoopModel::new(2, 5000, false, 4), RealPlan::Dev { k: if quick { 1 } else { 2 }, depth: if quick { 10 } else { 12 }, default: 0 }));
         }
         "C20" => {
@@ -1367,6 +1409,8 @@ pub fn plans_of(prop: &str, quick: bool) -> Vec<(LoopModel, RealPlan)> {
         "C14" => {
             v.push((LoopModel::new(2, 5000, false, 1), RealPlan::Dev { k: 1, depth: 25, default: 1 }));
             v.push((LoopModel::new(2, 5000, false, 1), RealPlan::Dev { k: 2, depth: if quick { 10 } else { 24 }, default: 1 }));
+            // a control client that never reads must not cost a single keepalive
+            v.push((LoopModel::new(2, 5000, false, 5), RealPlan::Dev { k: 2, depth: if quick { 8 } else { 16 }, default: 0 }));
             if !quick {
                 v.push((LoopModel::new(3, 15000, true, 1), RealPlan::Dev { k: 1, depth: 40, default: 0 }));
             }
